@@ -9,7 +9,9 @@ RULE = ("random: G-TABLE x G-THRESHOLD x G-CONFIG over the five set joins, non-t
         "triple (n,m,o) at its critical and grid thresholds with all common tokens last; "
         "E2: every arrangement of <=U ordered tokens; enumerated instances are non-trivial "
         "by construction; 'dense': both tables hold all subsets (size<=k) of a U-token universe "
-        "plus a hub token, per measure/threshold/operator/n_jobs; distinct = distinct "
+        "plus a hub token, per measure/threshold/operator/n_jobs; 'E1-wide': exact-boundary "
+        "triples up to 128/256 tokens; 'bundled': slices of the books data; 'large': 40-400-row "
+        "Zipf tables; 'njobs-grid': every (rows, n_jobs) split; distinct = distinct "
         "case-record digests")
 ASSUMPTIONS = ["py_stringmatching tokenizers are correct (fresh instance used by the oracle)",
                "pandas/numpy construct inputs and read outputs faithfully",
@@ -189,6 +191,53 @@ class E1Wide(E1):
         return enumgen.e1_exact_cases(self.bounds(tier)["N"])
 
 
+class NJobsGrid(Component):
+    """Completeness under every split: dense (right rows, n_jobs) grid for the five set joins;
+    the required pairs (identical values) must be returned at every n_jobs."""
+    name = "njobs-grid"
+    kind = "enum"
+    exhaustive = True
+    rule = "every (join, right rows <= R, n_jobs <= rows+2) cell"
+
+    def bounds(self, tier):
+        return {"rows": 64 if tier == "quick" else 128, "joins": list(gen.SET_JOIN_MEASURES)}
+
+    def shards(self, tier):
+        return 16
+
+    def cases(self, tier):
+        for m in gen.SET_JOIN_MEASURES:
+            for r in range(1, self.bounds(tier)["rows"] + 1):
+                yield {"measure": m, "rows": r}
+
+    def check(self, case, ctx):
+        from .c10 import grid_tables
+        m, r = case["measure"], case["rows"]
+        L, R = grid_tables(r)
+        must = set((i % 5, 100 + i) for i in range(r) if i % 3 != 2 and i % 7 != 3)
+        nsplit = int(R["v"].notna().sum())
+        t = 2 if m == "OVERLAP" else 0.9
+        for k in [1] + list(range(2, nsplit + 3)):
+            tok = mk_tok(enumgen.WS)
+            with calls.backend(k):
+                if m == "OVERLAP":
+                    df = ctx.lib(JOINS[m], L, R, "id", "id", "v", "v", tok, t, ">=", False, None,
+                                 None, "l_", "r_", False, k, False)
+                else:
+                    df = ctx.lib(JOINS[m], L, R, "id", "id", "v", "v", tok, t, ">=", True, False,
+                                 None, None, "l_", "r_", False, k, False)
+            if df is None:
+                continue
+            got = set(zip(df["l_id"].tolist(), df["r_id"].tolist()))
+            if not must <= got:
+                ctx.violation(missing_sig(m),
+                              "%s_join with %d right rows (%d with a value) at n_jobs=%d does not "
+                              "return the qualifying pairs %r"
+                              % (m.lower(), r, nsplit, k, sorted(must - got)[:3]))
+        ctx.nontrivial(bool(must))
+        ctx.label("njobs-grid:" + m)
+
+
 from .c02 import Bundled, Dense, Large  # noqa: E402  (completeness is asserted by these too)
 
-COMPONENTS = [Random(), E1(), E1Wide(), E2(), Dense(), Bundled(), Large()]
+COMPONENTS = [Random(), E1(), E1Wide(), E2(), Dense(), Bundled(), Large(), NJobsGrid()]
